@@ -249,6 +249,92 @@ func C10(p *ir.Program, r *report.R) {
 		r.Check("K4", "trie/node-immutable/appends-inspected", "-", nApp >= 10, fmt.Sprintf("%d append calls in libs/trie inspected; none extends a node-owned slice (violations are reported individually)", nApp))
 	}
 
+	// helpers that are handed a node-owned slice return fresh memory and do not write through it
+	{
+		eff := ir.DefaultEffects(p)
+		nH := 0
+		seenH := map[*ssa.Function]bool{}
+		for _, f := range p.Funcs {
+			if f.Pkg == nil || ir.RelPkg(f.Pkg.Pkg) != "libs/trie" || f.Blocks == nil || strings.HasSuffix(p.Pos(f.Pos()), "_test.go") {
+				continue
+			}
+			ir.Instrs(f, func(in ssa.Instruction) {
+				call, ok := in.(*ssa.Call)
+				if !ok {
+					return
+				}
+				callee := call.Call.StaticCallee()
+				if callee == nil || callee.Blocks == nil || callee.Pkg == nil || ir.RelPkg(callee.Pkg.Pkg) != "libs/trie" {
+					return
+				}
+				for i, a := range call.Call.Args {
+					if _, isSlice := a.Type().Underlying().(*types.Slice); !isSlice {
+						continue
+					}
+					root := a
+					for k := 0; k < 8; k++ {
+						if sl, ok := root.(*ssa.Slice); ok {
+							root = sl.X
+							continue
+						}
+						break
+					}
+					owned := false
+					if u, ok := root.(*ssa.UnOp); ok {
+						if fa, ok := u.X.(*ssa.FieldAddr); ok && c10NodeType(fa.X.Type()) != "" {
+							owned = true
+						}
+					}
+					if fl, ok := root.(*ssa.Field); ok && c10NodeType(fl.X.Type()) != "" {
+						owned = true
+					}
+					if !owned || seenH[callee] {
+						continue
+					}
+					// only helpers that return a byte slice built from the argument matter
+					res := callee.Signature.Results()
+					if res.Len() != 1 {
+						continue
+					}
+					if _, isSl := res.At(0).Type().Underlying().(*types.Slice); !isSl {
+						continue
+					}
+					seenH[callee] = true
+					nH++
+					sum := eff.Summarize(callee)
+					pi := i
+					if callee.Signature.Recv() != nil {
+						pi = i // receiver is argument 0 in SSA already
+					}
+					r.Check("K4", "trie/node-immutable/helper-returns-fresh/"+ir.FuncName(callee), p.Pos(callee.Pos()), sum.RetFresh && !sum.Params[pi] && sum.Global == "",
+						fmt.Sprintf("helper called with a node-owned slice returns fresh memory and does not write through it (retFresh %v, writes-param %v, global %q)", sum.RetFresh, sum.Params[pi], sum.Global))
+				}
+			})
+		}
+		r.Check("K4", "trie/node-immutable/helpers-inspected", "-", nH >= 1, fmt.Sprintf("%d slice-returning helpers receive node-owned slices (concat among them)", nH))
+	}
+
+	// ---- B6: reference counts of the node cache ------------------------------------------------------
+	// A second reference of the same child by the same parent is ignored, EXCEPT for roots (parent ==
+	// EmptyHash): a root committed at two heights must survive one Dereference. The early return of the
+	// de-duplication is therefore taken only for a non-root parent.
+	{
+		rf := p.Func("libs/trie", "Database.reference")
+		nEarly := 0
+		okDedup := true
+		for _, rt := range ir.Returns(rf) {
+			fs := ir.FactsAt(rt.Instr)
+			if !ir.HasFact(fs, "db.nodes[parent].children[child]#1") {
+				continue
+			}
+			nEarly++
+			if !ir.HasFact(fs, ir.NePat("common.EmptyHash", "parent")) {
+				okDedup = false
+			}
+		}
+		r.Check("K1", "trie.(*Database).reference/dedup-not-for-roots", p.Pos(rf.Pos()), okDedup && nEarly == 1, "the duplicate-reference shortcut is taken only when parent != EmptyHash (roots are counted every time)")
+	}
+
 	// ---- B5: Prove walks the whole key -------------------------------------------------------
 	// VerifyProof consumes nodes until the key is exhausted; Prove must therefore collect nodes
 	// until the key is exhausted (or the path ends): the loop condition is len(key) > 0 && tn != nil.
